@@ -100,8 +100,9 @@ def sandbox(d, props):
     try:
         rc, out = sh(f"git -C {REPO} worktree add -q --detach {wt} HEAD")
         assert rc == 0, out
-        rc, out = sh(f"git -C {wt} apply {patch}")
-        assert rc == 0, out
+        if os.path.getsize(patch) > 0:           # an empty patch = the pristine tree (used while /repo itself is busy)
+            rc, out = sh(f"git -C {wt} apply {patch}")
+            assert rc == 0, out
         sh(f"rsync -a --exclude .git --exclude .work --exclude replays /verif/ {vc}/")
         os.makedirs(os.path.join(vc, "replays"), exist_ok=True)
         env = dict(os.environ, OPTYX_REPO=wt)
